@@ -188,3 +188,51 @@ def npidx_stream(R: Run, Rm, GeoBox, GeoboxTiles, BlockAssembler):
                              {"entry": "BlockAssembler.extract", "dtype": np.dtype(dt).name, "y": int(y), "win": str(win)},
                              f"extract(roi={win}) = {got}, with Python ints {want}",
                              sig=f"npidx|extract|{np.dtype(dt).name}|{'refused' if got.startswith('ERR:') else 'answered'}")
+
+        # model correspondence: windows with numpy members (Model/C04Np.normRoiNp) and the GeoboxTiles entry points
+        from affine import Affine as _Aff
+
+        from .c04 import ints as _ints, ns as _ns, tiling_tok as _tt
+
+        def tok(v):
+            if isinstance(v, slice):
+                return f"s:{'N' if v.start is None else v.start}:{'N' if v.stop is None else v.stop}"
+            if isinstance(v, np.integer):
+                return ("u" if v.dtype.kind == "u" else "i") + str(v.dtype.itemsize * 8) + f":{int(v)}"
+            return f"p:{int(v)}"
+
+        for _ in range(R.pick(60, 400)):
+            dt = rng.choice(DTYPES)
+            mk_i = lambda v: dt(v) if rng.random() < 0.6 else int(v)
+            L = rng.randint(1, 4)
+            sizes = [3, 300, 60, 5]   # a member per axis that is a legitimate index of that axis (a 4th member is one too many)
+            win = tuple((mk_i(rng.randint(0, min(sizes[k], 120) - 1)) if rng.random() < 0.5 else slice(0, rng.randint(1, sizes[k])))
+                        for k in range(L))
+            if L == 2:
+                # a 2-tuple is the Y, X window
+                win = tuple((mk_i(rng.randint(0, min(n_, 120) - 1)) if rng.random() < 0.5 else slice(0, rng.randint(1, n_)))
+                            for n_ in (300, 60))
+            out = guarded(lambda: "ok" if asm.extract(-1, roi=win) is not None else "ok")
+            R.corr(f"c04 np roi [3,300,60] 1 {'[' + ','.join(tok(v) for v in win) + ']'}", lambda out=out: out,
+                   sig=f"np-corr|roi|len{L}|{out}")
+        gspecs = [("r", (10, 3), (7, 2)), ("v", (2, 0, 3), (1, 2, 1)), ("r", (300, 1), (40, 3))]
+        for kind, sy, sx in gspecs:
+            NYg = sy[0] if kind == "r" else sum(sy)
+            NXg = sx[0] if kind == "r" else sum(sx)
+            how = (sy[1], sx[1]) if kind == "r" else (tuple(sy), tuple(sx))
+            g = GeoboxTiles(GeoBox((NYg, NXg), _Aff(1, 0, 0, 0, -1, 0), "EPSG:3857"), how)
+            for _ in range(R.pick(25, 150)):
+                dt = rng.choice(DTYPES)
+                info = np.iinfo(dt)
+                vy, vx = (rng.choice([v for v in (0, 1, 2, -1, 255, 127, -128, 3) if info.min <= v <= info.max]) for _ in range(2))
+                iy = dt(vy) if rng.random() < 0.7 else int(vy)
+                ix = dt(vx) if rng.random() < 0.7 else int(vx)
+                head = f"{_tt(kind, sy)} {_tt(kind, sx)} {tok(iy)} {tok(ix)}"
+                R.corr(f"c04 np gbt region {head}", lambda iy=iy, ix=ix: " ".join(_ns(v) for v in g.roi[iy, ix]), sig="np-corr|gbt-region")
+                R.corr(f"c04 np gbt region {head}",
+                       lambda iy=iy, ix=ix: (lambda b: f"{int(b.top) if False else ''}")(None) or
+                       (lambda b: f"{int(b.bottom)}:{int(b.top)} {int(b.left)}:{int(b.right)}")(g.pix_bbox((iy, ix))),
+                       sig="np-corr|gbt-pixbbox")
+                R.corr(f"c04 np gbt cshape {head}", lambda iy=iy, ix=ix: "{} {}".format(*(int(v) for v in g.chunk_shape((iy, ix)).yx)),
+                       sig="np-corr|gbt-cshape")
+
